@@ -11,3 +11,8 @@ open SemantivaModel.Trace
 #print axioms publish_fault_one_ser_per_node
 #print axioms SemantivaModel.Tie.C06.publish_outside
 #print axioms SemantivaModel.Tie.C06.C06_publish_fault
+#print axioms good_necessary_table
+#print axioms good_necessary
+#print axioms start_flag_unobservable
+#print axioms trace_wellformed_iff
+#print axioms SemantivaModel.Tie.C06.C06_tight
